@@ -249,19 +249,21 @@ def gen_patch_lines(rng, n):
 
 # ------------------------------------------------------------------ running
 
-def run_ext(binary, ops_path, out_path, nops, timeout=1500):
+def run_ext(binary, ops_path, out_path, nops, timeout=150):
     """Run the external probe; a crash kills the process, so restart after the crashed line. Returns (obs list, crashed idx list)."""
     if os.path.exists(out_path):
         os.remove(out_path)
-    skip, crashed = -1, []
-    for _ in range(20):
+    skip, crashed, hangs = -1, [], 0
+    import time
+    for _ in range(6):
+        t0 = time.time()
         env = C.goenv({'VERIF_OPS': ops_path, 'VERIF_OUT': out_path, 'VERIF_SEED': str(C.seed()), 'VERIF_SKIP': str(skip)})
         cmd = [binary, '-test.run', '^TestVerifC01$', '-test.count=1', '-test.timeout', f'{timeout}s']
         try:
-            p = subprocess.run(cmd, env=env, cwd=C.BUILD, capture_output=True, text=True, timeout=timeout + 60)
+            p = subprocess.run(cmd, env=env, cwd=C.BUILD, capture_output=True, text=True, timeout=timeout + 20)
             rc, log = p.returncode, p.stdout + p.stderr
         except subprocess.TimeoutExpired:
-            rc, log = -9, 'timeout'
+            rc, log = -9, 'timeout (the probe hung)'
         obs = C.read_indexed(out_path, nops)
         if rc == 0:
             return obs, crashed, ''
@@ -270,22 +272,29 @@ def run_ext(binary, ops_path, out_path, nops, timeout=1500):
         if nxt <= skip or nxt >= nops:
             return obs, crashed, log[-3000:]
         crashed.append((nxt, log[-1500:]))
+        if time.time() - t0 > 0.8 * timeout:
+            hangs += 1
         with open(out_path, 'a') as f:
             f.write(f'{nxt}\tcrash\n')
         skip = nxt
+        if hangs >= 2:
+            break
     return C.read_indexed(out_path, nops), crashed, 'too many crashes'
 
 
-def execute(lines, bins, tag='c01'):
+def execute(lines, bins, tag='c01', timeout=150):
     ops_path = os.path.join(C.BUILD, f'{tag}.ops')
     open(ops_path, 'w').write('\n'.join(lines) + '\n')
     n = len(lines)
-    impl, crashed, elog = run_ext(bins['c01-ext'], ops_path, os.path.join(C.BUILD, f'{tag}.ext.impl'), n)
+    impl, crashed, elog = run_ext(bins['c01-ext'], ops_path, os.path.join(C.BUILD, f'{tag}.ext.impl'), n, timeout=timeout)
     for ptag, test in (('c01-patch', 'TestVerifC01'), ('c01-bytecode', 'TestVerifC01GetPtr')):
         outp = os.path.join(C.BUILD, f'{tag}.{ptag}.impl')
-        rc, log = C.run_probe(bins[ptag], test, ops_path, outp)
+        try:
+            rc, log = C.run_probe(bins[ptag], test, ops_path, outp, timeout=timeout)
+        except subprocess.TimeoutExpired:
+            rc, log = -9, 'timeout (the probe hung)'
         if rc != 0:
-            raise C.Infra(f'probe {ptag} failed rc={rc}:\n{log[-2000:]}')
+            crashed.append((ptag, log[-1500:]))
         for i, v in enumerate(C.read_indexed(outp, n)):
             if v is not None:
                 impl[i] = v
@@ -325,7 +334,7 @@ def make_ops(g, u, sigs, rng, tier, only_sig=None):
     return lines, meta
 
 
-def judge(lines, meta, impl, model, out, replay_extra):
+def judge(lines, meta, impl, model, out, replay_extra, crashed=()):
     """Property oracle on the implementation, then correspondence. Returns statistics."""
     st = {'calls': 0, 'by_form': {}, 'by_expect': {}, 'distinct': set(), 'crash': 0, 'fin_seen': 0, 'gc_steps': 0,
           'collected_superseded': 0, 'patch_wellused': 0, 'patch_stale': 0}
@@ -338,7 +347,9 @@ def judge(lines, meta, impl, model, out, replay_extra):
             if obs is None or obs == 'crash':
                 st['crash'] += 1
                 if nviol < 3:
-                    out.violation(f'process crashed while replaying a history of sig {sig.idx} {sig.describe(h.u)}', {**body, 'expected': [expected_obs(e) for e in h.expect]})
+                    clog = dict((k, v) for k, v in crashed if isinstance(k, int)).get(i, '')
+                    what = 'process crashed or hung while replaying' if obs == 'crash' else 'no observation (the probe died earlier and was not restarted) for'
+                    out.violation(f'{what} a history of sig {sig.idx} {sig.describe(h.u)}', {**body, 'expected': [expected_obs(e) for e in h.expect], 'crash_log_tail': clog[-1200:]})
                 nviol += 1
                 continue
             main, side = split_obs(obs)
@@ -417,9 +428,9 @@ def run(tier):
     g, u, sigs = corpus(C.seed(), sz['nrandom'])
     bins = build_probes()
     lines, meta = make_ops(g, u, sigs, rng, tier)
-    impl, model, crashed, elog = execute(lines, bins)
+    impl, model, crashed, elog = execute(lines, bins, timeout=(1500 if tier == 'thorough' else 150))
     extra = {'corpus_seed': C.seed(), 'nrandom': sz['nrandom'], 'how': 'python3 check.py C01 --replay <this file>'}
-    st = judge(lines, meta, impl, model, out, extra)
+    st = judge(lines, meta, impl, model, out, extra, crashed)
     if model is None:
         proof['failed'].append(('goomdrv', 'driver does not build: ' + elog[-500:]))
     if not st['oracle_failures']:
